@@ -503,6 +503,32 @@ func followUp(ctx context.Context, lk *lakeh.Lake, st state, victim Op) error {
 		if err := lk.API.RemoveBranch(ctx, id, "fx"); err != nil {
 			return fmt.Errorf("remove branch in %s: %w", name, err)
 		}
+		// vectors: every live object gets a vector copy, then the auto-vectorized aggregate must agree with the scan
+		tip2, err := lk.Tip(ctx, id, branch)
+		if err != nil {
+			return fmt.Errorf("tip: %w", err)
+		}
+		objs, vec, err := lk.Objects(ctx, id, tip2)
+		if err != nil {
+			return fmt.Errorf("list objects: %w", err)
+		}
+		var need []ksuid.KSUID
+		for _, ob := range objs {
+			if !vec[ob.ID] {
+				need = append(need, ob.ID)
+			}
+		}
+		if len(need) > 0 {
+			if _, err := lk.API.AddVectors(ctx, id.String(), branch, need, lakeh.Msg); err != nil {
+				return fmt.Errorf("vector add in %s@%s: %w", name, branch, err)
+			}
+		}
+		if len(objs) > 0 {
+			// (only success is required here; whether the vector runtime computes the right sum is C09's subject)
+			if _, err := lk.Query(ctx, nil, fmt.Sprintf("from %s@%s | sum(k)", name, branch)); err != nil {
+				return fmt.Errorf("sum(k) on %s@%s with vectors on every object: %w", name, branch, err)
+			}
+		}
 	}
 	if _, err := lk.CreatePool(ctx, lakeh.PoolSpec{Name: "fxpool", Key: []string{"k"}}); err != nil {
 		return fmt.Errorf("create pool: %w", err)
